@@ -23,7 +23,7 @@ type Mutant struct {
 	File string // path relative to the repository root
 	Old  string // must occur exactly once in File (else the mutant is skipped and counted)
 	New  string
-	Rule string // prefix of the obligation key that must be reported as violated
+	Rule string // prefix of the obligation key that must be reported as violated; "-" = behaviour-preserving variant, every rule must stay silent
 }
 
 var registry = map[string]*Property{}
